@@ -294,7 +294,7 @@ func VisitMemRegions(visitor MemRegionVisitor) {
 		entry = (*MemoryMapEntry)(unsafe.Pointer(curPtr))
 
 		// Mark unknown entry types as reserved
-		if entry.Type == 0 || entry.Type > memUnknown {
+		if entry.Type == 0 || entry.Type >= memUnknown {
 			entry.Type = MemReserved
 		}
 
